@@ -1,3 +1,140 @@
-/-! # C04 — (stub: property theorems go here; see docs/BUILDING.md) -/
+import PtVerif.Proofs.NeutronConv
+import PtVerif.Proofs.NeutronInvariance
+/-!
+# C04 — neutron results obey density, cell-size, grouping, unit and vector invariances
+
+Theorems over the model of C03 (`PtVerif.Model.Neutron`), at `ℝ`.  The anchor theorems are
+statements about the *generated* constants (`Generated/Constants`, `Generated/NeutronConsts`:
+the defining expressions of `ENERGY_FACTOR`, `VELOCITY_FACTOR` in nsf.py), so a changed constant,
+exponent or factor of ten in the source breaks a proof.  Tie: `harness/ptv/props/C04.py`.
+-/
 namespace PtVerif.C04
+open PtModel PtModel.Neutron PtProofs.Neutron
+
+/-- **density**: scaling the density by `k > 0` scales every SLD and cross section by `k` and
+    the penetration depth by `1/k` (missing-data and vacuum results are unchanged) -/
+theorem scale_density (t : Tbl ℝ) (atoms : List (Atom × ℝ)) (ρ w k : ℝ) (hk : 0 < k) :
+    neutronScattering t atoms (k * ρ) w = Outcome.scale k (neutronScattering t atoms ρ w) :=
+  PtProofs.Neutron.scale_density t atoms ρ w k hk
+
+/-- **cell size**: multiplying all counts by a constant `c ≠ 0` changes nothing -/
+theorem scale_counts (t : Tbl ℝ) (atoms : List (Atom × ℝ)) (ρ w c : ℝ) (hc : c ≠ 0)
+    (hn : Spec.count atoms ≠ 0) :
+    neutronScattering t (scaleCounts c atoms) ρ w = neutronScattering t atoms ρ w :=
+  PtProofs.Neutron.scale_counts t atoms ρ w c hc hn
+
+/-- **reordering**: a permutation of the atoms changes nothing -/
+theorem perm_invariant (t : Tbl ℝ) {l₁ l₂ : List (Atom × ℝ)} (h : l₁.Perm l₂) (ρ w : ℝ) :
+    neutronScattering t l₁ ρ w = neutronScattering t l₂ ρ w :=
+  PtProofs.Neutron.perm_invariant t h ρ w
+
+/-- **regrouping**: any two formula structures (any nesting depth, grouping, order, repeated
+    atoms) with equal total counts of every atom give the same result.  `Items.cnt` is C02's
+    count-weighted sum; `Items.atoms` is the model of `Formula.atoms`. -/
+theorem regroup_invariant (t : Tbl ℝ) (s₁ s₂ : Items ℝ) (ρ w : ℝ)
+    (hc : ∀ a, s₁.cnt a = s₂.cnt a)
+    (hnz1 : ∀ e ∈ s₁.atoms, e.2 ≠ 0) (hnz2 : ∀ e ∈ s₂.atoms, e.2 ≠ 0) :
+    neutronScattering t s₁.atoms ρ w = neutronScattering t s₂.atoms ρ w :=
+  PtProofs.Neutron.regroup_invariant t s₁ s₂ ρ w hc hnz1 hnz2
+
+/-- **regrouping**, stated for the quantifier of the property (all atoms have neutron data): no
+    condition on the counts at all -/
+theorem regroup_invariant_allData (t : Tbl ℝ) (s₁ s₂ : Items ℝ) (ρ w : ℝ)
+    (hc : ∀ a, s₁.cnt a = s₂.cnt a) (hd1 : AllData t s₁.atoms) (hd2 : AllData t s₂.atoms) :
+    neutronScattering t s₁.atoms ρ w = neutronScattering t s₂.atoms ρ w :=
+  PtProofs.Neutron.regroup_invariant_allData t s₁ s₂ ρ w hc hd1 hd2
+
+/-- **energy= and wavelength= agree**: by definition of the `energy=` path, at the equivalent
+    wavelength; together with the round trip this is `energy_of_wavelength_agrees` -/
+theorem energy_agrees_with_wavelength (t : Tbl ℝ) (atoms : List (Atom × ℝ)) (ρ e : ℝ) :
+    neutronScatteringE t atoms ρ e = neutronScattering t atoms ρ (neutronWavelength e) := rfl
+
+theorem energy_of_wavelength_agrees (t : Tbl ℝ) (atoms : List (Atom × ℝ)) (ρ w : ℝ) (hw : 0 < w) :
+    neutronScatteringE t atoms ρ (neutronEnergy w) = neutronScattering t atoms ρ w := by
+  unfold neutronScatteringE; rw [wavelength_energy_roundtrip w hw]
+
+/-- energy → wavelength → energy is the identity -/
+theorem energy_wavelength_roundtrip (e : ℝ) (he : 0 < e) : neutronEnergy (neutronWavelength e) = e :=
+  PtProofs.Neutron.energy_wavelength_roundtrip e he
+
+/-- wavelength → energy → wavelength is the identity -/
+theorem wavelength_energy_roundtrip (w : ℝ) (hw : 0 < w) : neutronWavelength (neutronEnergy w) = w :=
+  PtProofs.Neutron.wavelength_energy_roundtrip w hw
+
+/-- `E·λ²` is the constant `ENERGY_FACTOR` (both directions of the conversion) -/
+theorem E_mul_lambda_sq (e : ℝ) (he : 0 < e) :
+    e * (neutronWavelength e * neutronWavelength e) = PtGen.ENERGY_FACTOR :=
+  PtProofs.Neutron.E_mul_lambda_sq e he
+
+theorem energy_mul_lambda_sq (w : ℝ) (hw : w ≠ 0) : neutronEnergy w * (w * w) = PtGen.ENERGY_FACTOR :=
+  PtProofs.Neutron.energy_mul_lambda_sq w hw
+
+/-- `v·λ` is the constant `VELOCITY_FACTOR` -/
+theorem v_mul_lambda (v : ℝ) (hv : v ≠ 0) :
+    v * neutronWavelengthFromVelocity v = PtGen.VELOCITY_FACTOR :=
+  PtProofs.Neutron.v_mul_lambda v hv
+
+/-- **anchor** 25.3 meV ↦ 1.798 Å -/
+theorem anchor_wavelength_of_energy : |neutronWavelength (25.3 : ℝ) - 1.798| < 5e-4 :=
+  PtProofs.Neutron.anchor_wavelength_of_energy
+
+/-- **anchor** 2200 m/s ↦ 1.798 Å -/
+theorem anchor_wavelength_of_velocity : |neutronWavelengthFromVelocity (2200 : ℝ) - 1.798| < 5e-4 :=
+  PtProofs.Neutron.anchor_wavelength_of_velocity
+
+/-- **anchor** 1.798 Å ↦ 25.3 meV -/
+theorem anchor_energy_of_wavelength : |neutronEnergy (1.798 : ℝ) - 25.3| < 1e-2 :=
+  PtProofs.Neutron.anchor_energy_of_wavelength
+
+/-- the wavelength at which absorption is tabulated is the anchor -/
+theorem anchor_absorption_wavelength : (PtGen.ABSORPTION_WAVELENGTH : ℝ) = 1.798 :=
+  PtProofs.Neutron.anchor_absorption_wavelength
+
+/-- **vector**: the `i`-th entry of a vector call is the scalar call at the `i`-th wavelength -/
+theorem vector_is_map (t : Tbl ℝ) (atoms : List (Atom × ℝ)) (ρ : ℝ) (ws : List ℝ) (i : Nat)
+    (hi : i < ws.length) :
+    (neutronScatteringV t atoms ρ ws).get? i = some (neutronScattering t atoms ρ ws[i]) :=
+  PtProofs.Neutron.vector_is_map t atoms ρ ws i hi
+
+theorem vector_length (t : Tbl ℝ) (atoms : List (Atom × ℝ)) (ρ : ℝ) (ws : List ℝ) (l : List (Scat ℝ))
+    (h : neutronScatteringV t atoms ρ ws = .ok l) : l.length = ws.length :=
+  PtProofs.Neutron.vector_length t atoms ρ ws l h
+
+/-- **non-negativity**, with its guard: positive counts, masses, density, wavelength and total
+    cross sections give an `ok` result whose imaginary and incoherent SLD and cross sections are
+    ≥ 0 and whose penetration depth is > 0 -/
+theorem nonneg (t : Tbl ℝ) (atoms : List (Atom × ℝ)) (ρ w : ℝ)
+    (hd : AllData t atoms) (h : Physical t atoms ρ w) (hs : TotalPos t w atoms) :
+    ∃ s, neutronScattering t atoms ρ w = .ok s ∧
+      0 ≤ s.sldIm ∧ 0 ≤ s.sldInc ∧ 0 ≤ s.coh ∧ 0 ≤ s.abs ∧ 0 ≤ s.inc ∧ 0 < s.pen :=
+  PtProofs.Neutron.nonneg t atoms ρ w hd h hs
+
+/-- the non-negative outputs are non-negative for *every* `ok` result with `N ≥ 0`, `λ ≥ 0`
+    (`abs`, `max(·, 0)` and the square root make them so) -/
+theorem calculate_nonneg (n w : ℝ) (b : Cx ℝ) (s : ℝ) (hn : 0 ≤ n) (hw : 0 ≤ w) :
+    let r := calculateScattering n w b s
+    0 ≤ r.sldIm ∧ 0 ≤ r.sldInc ∧ 0 ≤ r.coh ∧ 0 ≤ r.abs ∧ 0 ≤ r.inc :=
+  calculateScattering_nonneg n w b s hn hw
+
+/-! ### non-vacuity -/
+
+/-- two differently grouped structures of C2H6O with equal counts: `C2H5OH`-like nesting vs flat -/
+def exNested : Items ℝ :=
+  .cons 1 (.group (.cons 2 (.atom ⟨6, 0, 0⟩) (.cons 5 (.atom ⟨1, 0, 0⟩) .nil)))
+    (.cons 1 (.atom ⟨8, 0, 0⟩) (.cons 1 (.atom ⟨1, 0, 0⟩) .nil))
+def exFlat : Items ℝ :=
+  .cons 6 (.atom ⟨1, 0, 0⟩) (.cons 1 (.atom ⟨8, 0, 0⟩) (.cons 2 (.atom ⟨6, 0, 0⟩) .nil))
+
+example : ∀ a, exNested.cnt a = exFlat.cnt a := by
+  intro a
+  simp only [exNested, exFlat, Items.cnt, Frag.cnt]
+  by_cases h1 : (⟨1, 0, 0⟩ : Atom) = a <;> by_cases h6 : (⟨6, 0, 0⟩ : Atom) = a <;>
+    by_cases h8 : (⟨8, 0, 0⟩ : Atom) = a <;> simp [h1, h6, h8] <;> norm_num
+
+example : (2 : ℝ) ≠ 0 ∧ Spec.count [((⟨1, 0, 0⟩ : Atom), (2 : ℝ)), (⟨8, 0, 0⟩, 1)] ≠ 0 := by
+  simp [Spec.count, Spec.sum]; norm_num
+
+example : [((⟨1, 0, 0⟩ : Atom), (2 : ℝ)), (⟨8, 0, 0⟩, 1)].Perm [(⟨8, 0, 0⟩, 1), (⟨1, 0, 0⟩, 2)] :=
+  List.Perm.swap _ _ _
+
 end PtVerif.C04
